@@ -19,6 +19,8 @@ def genFacts : Facts :=
     limitTable := Generated.bbreprLimits
     fillvalue := Generated.bbreprFillvalue
     reprIsReprlib := Generated.bbreprIsReprlib
-    segRepr := Generated.fmtSegRepr }
+    segRepr := Generated.fmtSegRepr
+    runsMarked := Generated.fmtPathRunsMarked
+    sysMaxsize := Generated.sysMaxsize }
 
 end Glom.C18
